@@ -222,6 +222,12 @@ def replay_findings(ctx):
             rs = [Run("kfa", w["files"], w["argv_a"]), Run("kfb", w["files"], w["argv_b"])]
             run_all(ctx, rs)
             ctx.known(f, rs[0].stdout != rs[1].stdout, "outputs %s" % ("differ" if rs[0].stdout != rs[1].stdout else "agree"))
+        elif w.get("kind") == "cli-grep":
+            r = Run("kfg", w["files"], w["argv"])
+            run_all(ctx, [r])
+            out = r.stdout.decode("utf-8", "replace") + "".join(v.decode("utf-8", "replace") for v in r.created.values())
+            missing = [m for m in w["must_contain"] if m not in out]
+            ctx.known(f, r.status == 0 and bool(missing), "status %s, missing %s" % (r.status, missing))
 
 
 def replay(ctx, path):
